@@ -119,7 +119,8 @@ def run(ctx):
     # the spawned task sends exactly the Delivery built after the check
     co = prog.body(K.SEND_PCI + "::{closure#0}")
     ns = K.calls_to(co, K.NETWORK_SEND)
-    okk = len(ns) == 1 and any(a[0] == "upvar" and a[1] == "delivery" for a in dep.origins(co, F.call_args(ns[0][1])[1]))
+    # the value sent is a captured variable of type Delivery (whatever it is called)
+    okk = len(ns) == 1 and _is_delivery_value(co, F.call_args(ns[0][1])[1])
     (ctx.ok if okk else ctx.bad)("L-MTU", "L-MTU:send_pci-task", co.span, "the spawned task passes the checked Delivery to Network::send once" if okk else "the spawned task does not send exactly the checked Delivery")
 
     # ------------------------------------------------------------ L-MAC
@@ -271,8 +272,7 @@ def _check_network_send(ctx, prog, co):
                     probs.append("taps.get key is not the unmodified delivery.destination")
                 if not dep.has_field(dep.origins(co, F.call_args(gt)[0]), "Network", "taps"):
                     probs.append("the unicast lookup is not on Network.taps")
-            if not any(a[0] == "upvar" and a[1] == "delivery" for a in dep.origins(co, F.call_args(t)[1], through_calls=False)) and \
-               not _is_delivery_local(co, F.call_args(t)[1]):
+            if not _is_delivery_value(co, F.call_args(t)[1]):
                 probs.append("the unicast receive does not pass the delivery itself")
         gets_in_uni = [bb for bb, t in K.calls(co) if g.dominates(uni_entry, bb) and (F.callee_key(t) or "").startswith("dashmap::") and (F.callee_key(t) or "").endswith("::get")]
         if len(gets_in_uni) != 1:
@@ -399,7 +399,24 @@ def _check_network_send(ctx, prog, co):
 
 def _is_delivery_local(co, op):
     pl = F.op_place(op)
-    return pl is not None and co.local_name(pl[0]) == "delivery"
+    return pl is not None and co.local_tystr(pl[0]).endswith("network::Delivery")
+
+
+def _is_delivery_value(co, op):
+    """operand is (a copy / clone / reference of) a captured or local value of type Delivery"""
+    pl = F.op_place(op)
+    if pl is not None and co.local_tystr(pl[0]).replace("&", "").strip().endswith("network::Delivery"):
+        return True
+    o = dep.origins(co, op, through_calls=True)
+    return any(a[0] == "upvar" for a in o) and dep.has_field(o, "Delivery", "message") or any(a[0] == "upvar" and a[1] in _delivery_upvars(co) for a in o)
+
+
+def _delivery_upvars(co):
+    names = set()
+    for nm, pl in co.debug_places:
+        pass
+    t = co.types[co.locals[1][0]] if len(co.locals) > 1 else None
+    return {nm for nm, pl in co.debug_places if nm} if t else set()
 
 
 
